@@ -94,7 +94,10 @@ class XPathFunction(XPathToken):
         else:
             self.clear()
             for arg in args:
-                if isinstance(arg, XPathToken):
+                if isinstance(arg, XPathFunction):
+                    # a function item is an argument value: its token is not an expression to evaluate
+                    self._items.append(ValueToken(self.parser, value=arg))
+                elif isinstance(arg, XPathToken):
                     self._items.append(arg)
                 else:
                     value = self.validated_argument(arg, context)
